@@ -68,11 +68,9 @@ Ltac zle_cases :=
 
 Lemma insert_comm a b l : insert a (insert b l) = insert b (insert a l).
 Proof.
-  induction l as [|y t IH].
-  - zle_cases; try reflexivity; try lia. assert (a = b) by lia. subst. reflexivity.
-  - zle_cases; try reflexivity; try lia.
-    + assert (a = b) by lia. subst. reflexivity.
-    + f_equal. exact IH.
+  induction l as [|y t IH];
+    zle_cases; try reflexivity; try lia;
+    try (assert (a = b) by lia; subst; reflexivity); try (f_equal; exact IH).
 Qed.
 
 (* ------------------------------------------------------------------ folds of commuting steps *)
@@ -94,7 +92,7 @@ Section Fold.
     induction 1 as [|x l l' Hp IH|x y l|l l' l'' Hp1 IH1 Hp2 IH2]; intros Hc s.
     - reflexivity.
     - simpl. apply IH. intros; apply Hc; right; auto.
-    - simpl. rewrite Hc; [reflexivity|right; left; auto|left; auto].
+    - simpl. rewrite Hc; [reflexivity|simpl; auto|simpl; auto].
     - rewrite IH1 by auto. apply IH2.
       intros a b s0 Ha Hb. apply Hc; eapply Permutation_in; try (symmetry; exact Hp1); auto.
   Qed.
@@ -111,7 +109,7 @@ Proof.
   - reflexivity.
   - simpl. destruct (p x); auto. apply IH. intros; apply Hu; try right; auto.
   - simpl. destruct (p y) eqn:Ey, (p x) eqn:Ex; auto.
-    f_equal. apply Hu; [left; auto|right; left; auto|auto|auto].
+    f_equal. apply Hu; simpl; auto.
   - rewrite IH1 by auto. apply IH2.
     intros a b Ha Hb. apply Hu; eapply Permutation_in; try (symmetry; exact Hp1); auto.
 Qed.
